@@ -16,7 +16,7 @@ def make_spec(rng, hid, seed_value):
     nv = int(rng.integers(3, 5))
     ops = ["construct"]
     pool = ["reinit", "sample", "sample_cont", "statistics", "apply", "metrics", "rotate", "gradient", "save", "fit", "psi", "fit",
-            "setparams"]
+            "setparams", "fit_cb"]
     n = int(rng.integers(5, 10))
     for _ in range(n):
         ops.append(pool[int(rng.integers(0, len(pool)))])
@@ -145,6 +145,19 @@ def run_history(spec, perturb=None, hooks=None):
             st.fit(torch.tensor(rows, dtype=torch.double), epochs=fc["epochs"], pos_batch_size=fc["pos"], neg_batch_size=fc["neg"],
                    k=fc["k"], lr=fc["lr"], **kw)
             d = params_digest(st)
+        elif op == "fit_cb":
+            # training with fresh evaluator / early-stopping callbacks (a second history in the same process must not
+            # see anything left behind by an earlier one)
+            from qucumber.callbacks import EarlyStopping, MetricEvaluator
+
+            ev = MetricEvaluator(1, {"s": lambda s_: float(sum(float(p_.data.sum()) for p_ in s_.rbm_am.parameters()))})
+            es = EarlyStopping(1, 1e-12, 2, ev, "s", criterion="absolute")
+            kw = {} if bases is None else {"input_bases": bases}
+            st._stop_training = False
+            st.fit(torch.tensor(rows, dtype=torch.double), epochs=3, pos_batch_size=fc["pos"], k=fc["k"], lr=fc["lr"],
+                   callbacks=[ev, es], **kw)
+            st._stop_training = False
+            d = digest([params_digest(st), [int(e) for e in ev.epochs], [float(v) for v in ev["s"]] if len(ev) else []])
         else:
             raise ValueError(op)
         if hooks is not None and st is not None:
